@@ -2629,6 +2629,29 @@ def i_base64_encode(e, st, a, i):
     return i_nondet_string(e, st, [b'base64.%d' % e.b64_count, 4, b'AQ=g'], i)
 
 
+def i_proto_clone(e, st, a, i):
+    """proto.Clone(m): a copy of the message behind the same dynamic type (one level deep: nested messages are shared,
+    which the callers modelled here never write through); a typed nil pointer stays a typed nil pointer"""
+    m = a[0]
+    if isinstance(m, Opaque):
+        return m
+    alts = []
+    for g, dt, v in m.alts:
+        if dt is None or not isinstance(v, Ptr):
+            alts.append((g, dt, v))
+            continue
+        palts = []
+        for g2, o, pth in v.alts:
+            if o is None:
+                palts.append((g2, None, ()))
+            else:
+                val = e.load(st, Ptr(((True, o, pth),)), None)
+                _, d = e.under(dt)
+                palts.append((g2, e.new_obj(st, val, d.get('elem')), ()))
+        alts.append((g, dt, Ptr(tuple(palts))))
+    return Iface(tuple(alts))
+
+
 def i_uuid_new(e, st, a, i):
     z = e.zero(i['type'])
     if not e.goroutine_park:
@@ -2731,6 +2754,9 @@ INTRINSICS = {
     'github.com/onosproject/onos-config/internal/verifrt.Assert': lambda e, st, a, i: e.obligations.append((a[1].decode(), sb(And(st.pc, Not(a[0]))))),
     'github.com/onosproject/onos-config/internal/verifrt.Cover': lambda e, st, a, i: (e.covers.append((a[0].decode(), st.pc)), e.snapshots.__setitem__(a[0].decode(), (st.pc, dict(st.heap)))) and None,
     'verif.identity': lambda e, st, a, i: a[0],
+    'google.golang.org/protobuf/proto.Clone': i_proto_clone,
+    'github.com/golang/protobuf/proto.Clone': i_proto_clone,
+    'github.com/gogo/protobuf/proto.Clone': i_proto_clone,
     'math/big.NewFloat': i_big_newfloat,
     '(*encoding/base64.Encoding).EncodeToString': i_base64_encode,
     # the text of a stored float (big.Float gob decoding + %f): an unknown short text, only compared with other texts
